@@ -170,7 +170,7 @@ def c12(tier):
 def c10(tier):
     ck = Check("C10", tier)
     binary = build_harness()
-    depth, nsample, nvar = (2, 700, 2) if tier == "quick" else (2, 0, 8)
+    depth, nsample, nvar = (2, 700, 2) if tier == "quick" else (2, 0, 16)
     cfg = write_cfg(["Depth = %d" % depth, "NSample = %d" % nsample, "NVariants = %d" % nvar])
     r = tlc("OplGrammar", "g.cfg", files={"g.cfg": cfg}, extra=["-seed", str(seed())])
     ck.add_tlc(r)
@@ -183,14 +183,14 @@ def c10(tier):
     ck.extra["operator_chain_programs"] = len(rc.lines)
     if tier == "thorough":
         # deeper nesting around the documented limit (10): chains of ! and of parentheses are printed by the same module at depth 3 in a sample
-        cfg = write_cfg(["Depth = 3", "NSample = 20000", "NVariants = 1"])
+        cfg = write_cfg(["Depth = 3", "NSample = 50000", "NVariants = 1"])
         r3 = tlc("OplGrammar", "g3.cfg", files={"g3.cfg": cfg}, extra=["-seed", str(seed() + 1)], heap="8g")
         ck.add_tlc(r3)
         progs = progs + r3.lines
     if not progs:
         raise Inconclusive("OplGrammar.tla generated nothing")
     eng_every = 40 if tier == "quick" else 25
-    inp = {"progs": [{"src": p["src"], "engine": i % eng_every == 0, "leafc": p["leafc"]} for i, p in enumerate(progs)], "lex": [], "texts": [], "raw": []}
+    inp = {"progs": [{"src": p["src"], "engine": i % eng_every == 0, "leafc": p["leafc"], "kw": p["kw"]} for i, p in enumerate(progs)], "lex": [], "texts": [], "raw": []}
     allrecs, crashers = run_surviving(binary, "opl", inp, timeout=2400)
     recs = {x["prog"]: x for x in allrecs if "prog" in x}
     for c in crashers:
@@ -231,7 +231,7 @@ def c10(tier):
     ck.exhaustive = nsample == 0
     ck.rule = ("expressions of nesting depth %d over three leaves with !, &&, || (all %s) printed with TypeScript's minimal parentheses in random spelling variants "
                "(property access, array type, annotations, separators, quoting, comments, redundant parentheses, trailing commas, !!, the leaf c spelled directly / as a traversal onto a relation / "
-               "as a traversal onto a permission / as a permission call, four orders of the three classes); parsed by the real parser; "
+               "as a traversal onto a permission / as a permission call, four orders of the three classes, relation names that begin with the letters of a keyword); parsed by the real parser; "
                "truth tables compared; every %dth program also through a real server; non-trivial: at least one binary operator" % (depth, "of them" if nsample == 0 else "a seeded sample", eng_every))
     ck.assumptions = ["the spellings `related:` and `traverse` of the examples and snapshots are used where the EBNF text says `related =` and `transitive`"]
     ck.finish()
